@@ -50,13 +50,23 @@ Notation membership_root' := (membership_root bytes bytes bytes Hsha).
 Notation incremental_roots' := (incremental_roots bytes bytes bytes Hsha).
 Notation path_get' := (@path_get bytes).
 
+(* the length check of fix 10a81c4: an entry that is not a 32-byte digest is treated as missing *)
+Definition len32 (d : bytes) : bool := Nat.eqb (length d) 32.
+Definition wfp (p : list (pos * bytes)) : list (pos * bytes) := wf_path len32 p.
+
 (* verdict: 0 accept, 1 reject (a missing path entry is a rejection since fix 76e96b4; it was a panic, code 2) *)
 Definition verdict_memb (path : list (pos * bytes)) (index version : N) (e root : bytes) : N :=
-  match membership_root' (path_get' path) index version e with
+  match membership_root' (path_get' (wfp path)) index version e with
   | None => 1
   | Some d => if bytes_eqb d root then 0 else 1
   end.
 Definition verdict_incr (path : list (pos * bytes)) (s e : N) (ds de : bytes) : N :=
+  match incremental_roots' (path_get' (wfp path)) s e with
+  | (Some a, Some b) => if bytes_eqb a ds && bytes_eqb b de then 0 else 1
+  | _ => 1
+  end.
+(* the verifier of the pinned commit: entries hashed as given, whatever their length *)
+Definition verdict_incr_unchecked (path : list (pos * bytes)) (s e : N) (ds de : bytes) : N :=
   match incremental_roots' (path_get' path) s e with
   | (Some a, Some b) => if bytes_eqb a ds && bytes_eqb b de then 0 else 1
   | _ => 1
@@ -73,7 +83,9 @@ Inductive alt : Type :=
 | AltSecond (v : N)           (* set Version / EndVersion *)
 | AltDigestA (d : bytes)      (* replace event digest (membership) / start digest (incremental) *)
 | AltDigestB (d : bytes)      (* replace root digest (membership) / end digest (incremental) *)
-| AltDropDb (k : N) (d : bytes).   (* both at once: remove the k-th entry and replace the root / end digest *)
+| AltDropDb (k : N) (d : bytes)    (* both at once: remove the k-th entry and replace the root / end digest *)
+| AltShift (k : N)            (* move the last byte of the k-th entry to the front of the (k+1)-th *)
+| AltPad (k : N).             (* append a zero byte to the k-th entry *)
 
 Definition flip_first (d : bytes) : bytes :=
   match d with [] => [1]%uint63 | x :: r => (x lxor 1)%uint63 :: r end.
@@ -90,8 +102,27 @@ Fixpoint drop_nth {A} (k : nat) (l : list A) : list A :=
   | x :: r, S k' => x :: drop_nth k' r
   end.
 
+Fixpoint shift_nth (k : nat) (l : list (pos * bytes)) : list (pos * bytes) :=
+  match l, k with
+  | (p1, a) :: (p2, b) :: r, O =>
+      match a with
+      | [] => l
+      | _ => (p1, removelast a) :: (p2, last a 0%uint63 :: b) :: r
+      end
+  | x :: r, S k' => x :: shift_nth k' r
+  | _, _ => l
+  end.
+Fixpoint pad_nth (k : nat) (l : list (pos * bytes)) : list (pos * bytes) :=
+  match l, k with
+  | [], _ => []
+  | (p, d) :: r, O => (p, d ++ [0%uint63]) :: r
+  | x :: r, S k' => x :: pad_nth k' r
+  end.
+
 Definition alt_path (a : alt) (p : list (pos * bytes)) : list (pos * bytes) :=
   match a with
+  | AltShift k => shift_nth (N.to_nat k) (canon p)
+  | AltPad k => pad_nth (N.to_nat k) (canon p)
   | AltEntry k => alter_nth (N.to_nat k) (canon p)
   | AltDrop k => drop_nth (N.to_nat k) (canon p)
   | AltDropDb k _ => drop_nth (N.to_nat k) (canon p)
